@@ -285,3 +285,11 @@ class OpaqueContainer(Abstract):
 
   def __init__(self, name):
     self.name = name
+
+
+class InstanceDict(Abstract):
+  """`obj.__dict__` of a Buildable: the five internals set by __init__ / __unflatten__ /
+  __setstate__ (no other instance attribute is modelled)."""
+
+  def __init__(self, obj):
+    self.obj = obj
